@@ -19,6 +19,7 @@ from sim import world as Wd
 from sim.vkernel import K
 
 ID = 'C04'
+TIER = 'quick'
 LEVEL = 'exploration'
 ENGINE = 'schedule'
 BUDGET = {'quick': 1500, 'thorough': 300000}
@@ -82,7 +83,7 @@ def gen(rng):
             tn = nm if j == 0 else '%s_%d' % (nm, j)
             G.add_trashed(steps, ht, tn, TG.pct(home + '/old/' + nm), '2019-01-01T00:00:00', 'none', tag='c%d' % j)
             steps.append(['f', ht + '/files/' + tn, 'c%d' % j, 0o644])
-    nprocs = 1 if mode == 'seq' else rng.choice([2, 2, 2, 3])
+    nprocs = 1 if mode == 'seq' else (rng.choice([2, 2, 2, 3]) if TIER == 'quick' else rng.choice([2, 2, 3, 3, 4]))
     procs = []
     for pi in range(nprocs):
         d = home + '/p%d' % pi
